@@ -308,6 +308,39 @@ def clause6(P, res):
         res.violated(rid, "dequeue-bodies", f"expected deq_once and deq_run of the bounded mpsc, found {n}")
 
 
+def clause7(P, res):
+    rid = "C01-7"
+    res.rule(rid, "a waiter withdraws only by compare-and-swap: in the hand-off cores (rendezvous, mpmc waiter queues, mpmc-unbounded cells) the waiter state is moved to a "
+                  "CANCELLED constant only by compare_exchange from the WAITING constant, never by a plain store — the deliverer commits with a store/CAS to DONE under "
+                  "the channel lock, and an unconditional CANCELLED overwrites a committed hand-off: the sender was told Ok, the receiver reports Timeout and the value is "
+                  "dropped (a state *load* made before taking the lock does not help: the deliverer can win the lock in between)")
+    n = 0
+    for b in P.bodies.values():
+        if not b.id.startswith("fibre::") or "::tests::" in b.id or not common.in_scope(b.id):
+            continue
+        for e in b.calls():
+            if not (e.is_atomic and e.args):
+                continue
+            consts = [str((b.const_of_operand(a) or {}).get("path", "")) for a in e.args[1:]]
+            if not any(c.endswith("CANCELLED") for c in consts):
+                continue
+            if "state" not in b.path_of_operand(e.args[0]).rsplit(".", 1)[-1] and "state" not in b.path_of_operand(e.args[0]):
+                continue
+            n += 1
+            key = f"{b.id}:{e.method}#{sum(1 for x in b.calls() if x.is_atomic and x.pos < e.pos)}"
+            if e.method in ("compare_exchange", "compare_exchange_weak") and len(consts) >= 2 and consts[1].endswith("CANCELLED") and consts[0].endswith("WAITING"):
+                res.holds(rid, key, "WAITING -> CANCELLED by compare_exchange", where=e.loc)
+            elif e.method in ("compare_exchange", "compare_exchange_weak") and consts and consts[0].endswith("CANCELLED"):
+                res.holds(rid, key, "compare_exchange *from* CANCELLED (re-arming / clean-up)", where=e.loc, nontrivial=False)
+            elif e.method in ("store", "swap", "fetch_or", "fetch_and"):
+                res.violated(rid, key, f"the waiter state is set to CANCELLED by {e.method} at {e.loc}: a hand-off committed by the other side just before is overwritten "
+                             "(sender Ok, receiver Timeout, value dropped)", where=e.loc)
+            else:
+                res.unclassified(rid, key, f"CANCELLED written by {e.method} with operands {consts}", where=e.loc)
+    if n < 4:
+        res.violated(rid, "cancel-sites", f"expected >= 4 WAITING->CANCELLED transitions in the hand-off cores, found {n}")
+
+
 def run(P, ctx):
     res = Result("C01")
     res.extra["explanation"] = "Handoff-under-lock, timeout-vs-handoff, publication order/strength and value-returned-on-failure shapes of the point-to-point channels."
@@ -317,4 +350,5 @@ def run(P, ctx):
     clause4(P, res)
     clause5(P, res)
     clause6(P, res)
+    clause7(P, res)
     return res
